@@ -8,7 +8,7 @@
    What the reader yields for damaged files (missing / wrong size) is the subject
    of C10/C20 and enters here as the item list. *)
 From Coq Require Import Lia.
-From Torf Require Import Base Extracted Corrupt CorruptProofs Pipeline PipelineProofs FlowProofs PipeExplore PipeExploreProofs PipeConfigs VerifyTrueProofs VerifyFalseProofs ThreadProofs DeadlockProofs ConservationProofs ReaderDoneProofs DrainProofs CompleteProofs ReportProofs VerdictIffIntact.
+From Torf Require Import Base Extracted Corrupt CorruptProofs Pipeline PipelineProofs FlowProofs PipeExplore PipeExploreProofs PipeConfigs VerifyTrueProofs VerifyFalseProofs ThreadProofs DeadlockProofs ConservationProofs ReaderDoneProofs DrainProofs CompleteProofs ReportProofs VerdictIffIntact NoCallbackProofs.
 Open Scope Z_scope.
 
 (* a changed byte at stream position p inside file k: the content error for piece p / L names file k *)
@@ -81,6 +81,27 @@ Theorem C02_verdict_iff_intact : forall c s expd r,
   (r = ResTrue <-> yielded (cf_items c) = map RPiece expd).
 Proof. exact verify_quiet_verdict_iff_intact. Qed.
 Print Assumptions C02_verdict_iff_intact.
+
+(* UNBOUNDED, "without callback a content / size / read error": without a callback verification NEVER returns False.  For
+   content whose items are readable pieces or carry at least one error, a run that returns a verdict returns True and
+   the content is intact; so on damaged content the call raises (and by C04_exception_only_for_a_reason what it raises
+   is the content error of a mismatching piece, an error carried by an item, or a reader error).  Every schedule,
+   hasher count and clock. *)
+Theorem C02_without_callback_never_false : forall c expd,
+  cf_plan c = CbAbsent -> cf_verify c = Some expd -> forall s r,
+  (1 <= cf_hashers c)%nat -> reach c s ->
+  Forall no_gap (yielded (cf_items c)) -> Pipeline.zlen (yielded (cf_items c)) = Pipeline.zlen expd ->
+  s_result s = Some r -> verdict r ->
+  r = ResTrue /\ yielded (cf_items c) = map RPiece expd.
+Proof. exact verify_without_callback_never_false. Qed.
+Print Assumptions C02_without_callback_never_false.
+
+(* non-vacuity: without a callback, intact content gives True; a corrupt piece makes the call raise the content error *)
+Example C02_without_callback_example :
+  let ok := mk [RPiece 1; RPiece 2] 2 2 CbAbsent [] (Some [1; 2]) in
+  s_result (auto_run 400 ok (init ok)) = Some ResTrue /\ Forall no_gap (yielded (cf_items ok)) /\
+  s_result (auto_run 400 V_corrupt_nocb (init V_corrupt_nocb)) = Some (ResRaise 1000).
+Proof. split; [vm_compute; reflexivity|]. split; [repeat constructor|vm_compute; reflexivity]. Qed.
 
 (* UNBOUNDED, exactness of the reports: in a verification with a passive callback (one that returns None), under every
    schedule, hasher count, reporting interval and clock,
